@@ -190,7 +190,22 @@ func HeldLocks() int { return heldLocks }
 
 //go:norace
 func mLock(l *lockModel) {
+	// does this writer announce itself (blocking new readers) while it waits? choice 0 = no
+	committed := false
+	if (l.writer != 0 || l.readers != 0) && nG > 1 {
+		p := 0
+		if RandN(1000) < 500 {
+			p = 1
+		}
+		if Decide(KLockCommit, siteLock, 2, p) == 1 {
+			committed = true
+			l.pendingW++
+		}
+	}
 	waitFor(wWLock, l, nil, siteLock)
+	if committed {
+		l.pendingW--
+	}
 	l.writer = int32(curG) + 1
 	heldLocks++
 }
@@ -358,8 +373,22 @@ var (
 	nPoolNotLast uint64 // reuse of an object that was not the most recently put
 )
 
+// KeepPoolsOnce makes the next Reset leave the pools as they are: the execution that follows is
+// part of a sequence (history, then the project) within one case, and what earlier executions of
+// the sequence left in the pools is exactly the history under test.
+var keepPoolsOnce bool
+
 //go:norace
-func resetPoolStats() { clearPools() }
+func KeepPoolsOnce() { keepPoolsOnce = true }
+
+//go:norace
+func resetPoolStats() {
+	if keepPoolsOnce {
+		keepPoolsOnce = false
+		return
+	}
+	clearPools()
+}
 
 // SetPoolPolicy sets the pool policy and Put-drop probability of the run.
 //
